@@ -33,10 +33,11 @@ DecReq(j) ==
                                             inc |-> InRat(j.inc)] @@ pl
 
 (* E: rows of <<value, scale>>; obs: rows of doubles *)
-BadEntries(obs, E) ==
+BadEntriesT(obs, E, t) ==
     IF Len(obs) # Len(E) THEN {<<0, 0>>}
     ELSE IF Len(E) = 0 THEN {}
-    ELSE { rc \in (1..Len(E)) \X (1..Len(E[1])) : ~Close(obs[rc[1]][rc[2]], E[rc[1]][rc[2]][1], E[rc[1]][rc[2]][2], Tol) }
+    ELSE { rc \in (1..Len(E)) \X (1..Len(E[1])) : ~Close(obs[rc[1]][rc[2]], E[rc[1]][rc[2]][1], E[rc[1]][rc[2]][2], t) }
+BadEntries(obs, E) == BadEntriesT(obs, E, Tol)
 Shape(r, M) == IF r.q = "fext" THEN Fn([k \in 1..Len(M) |-> <<M[k]>>]) ELSE M
 (* the smallest set of listed open deviations (at most two) under which the observation is explained *)
 RECURSIVE FirstKF(_,_,_,_)
@@ -76,14 +77,23 @@ TEval(e) ==
        /\ IF e.req.q = "static"
           THEN LET bad == StaticBad(e.obs, def, out')
                IN Verdict(e.id, IF bad = {} /\ e.flags_ok THEN "ok" ELSE "fail", bad)
-          ELSE LET bad == BadEntries(e.obs, Shape(r, out'))
+          ELSE LET bad == BadEntriesT(e.obs, Shape(r, out'), IF "tol" \in DOMAIN e THEN e.tol ELSE Tol)
                IN IF bad = {} /\ e.flags_ok THEN Verdict(e.id, "ok", {})
                   ELSE LET k == IF e.flags_ok THEN FirstKF(KFCands, e.obs, def, r) ELSE {}
                        IN IF k # {} THEN Verdict(e.id, "kf:" \o JoinNames(k), Cardinality(bad))
                           ELSE Verdict(e.id, "fail", IF Cardinality(bad) > 12 THEN <<Cardinality(bad), CHOOSE x \in bad : TRUE>> ELSE bad)
+(* two observed lists (e.g. eigenvalues of two equivalent descriptions) related by an exact factor:
+   |a_i - factor * b_i| <= 2^-tol |a_i| *)
+TObsEqual(e) ==
+    /\ UNCHANGED pvars
+    /\ LET f == InRat(e.factor)
+           bad == IF Len(e.a) # Len(e.b) THEN {0}
+                  ELSE { i \in 1..Len(e.a) : ~RClose(Obs(e.a[i]), RMul(f, Obs(e.b[i])), RAbs(Obs(e.a[i])), e.tol) }
+       IN Verdict(e.id, IF bad = {} THEN "ok" ELSE "fail", bad)
 TStep == /\ l <= Len(Trace)
          /\ l' = l + 1
-         /\ LET e == Trace[l] IN IF e.ev = "define" THEN TDefine(e) ELSE TEval(e)
+         /\ LET e == Trace[l] IN IF e.ev = "define" THEN TDefine(e)
+                                 ELSE IF e.ev = "obs_equal" THEN TObsEqual(e) ELSE TEval(e)
 TSpec == TInit /\ [][TStep]_tvars
 Done == TLCGet("stats").diameter - 1 = Len(Trace)
 =============================================================================
